@@ -164,6 +164,18 @@ def run(case, sim):
             for f, eff in zip(filters, caps):
                 Mi = [e for e in st.values() if model.matches(e, f, "inclusive")]
                 Ms = [e for e in st.values() if model.matches(e, f, "strict")]
+                if len(Mi) > eff and eff > 0:
+                    # recency per filter: whatever its neighbours add, the matches of this filter
+                    # that are strictly newer than its cut-off timestamp must have been sent
+                    ranked = sorted(Mi, key=lambda e: -e["created_at"])
+                    cut = ranked[eff - 1]["created_at"]
+                    owed = [e for e in Ms if e["created_at"] > cut]
+                    lost = [e for e in owed if e["id"] not in gotset]
+                    if lost:
+                        viol.append({"cls": "not-newest", "sig": "not-newest|%s|multi|%s" % (backend, qcommon.filter_shape(f)),
+                                     "detail": {"filters": filters, "filter": f, "limit": eff, "cutoff": cut,
+                                                "omitted_newer": [(e["id"][:8], e["created_at"]) for e in lost[:4]]}})
+                        break
                 if len(Mi) <= eff:
                     omitted = [e for e in Ms if e["id"] not in gotset]
                     if omitted:
